@@ -1,6 +1,15 @@
 -------------------------------- MODULE ChunkTrace --------------------------------
 EXTENDS ChunkedWarp, TraceIO
-Verdict(e) == IF e.outcome # "ok" THEN "reject:raised_" \o e.outcome
+\* really different CRSs: GDAL approximates per chunk, so only robust facts are demanded (e.holes / e.extra count destination pixels
+\* whose whole 3x3 neighbourhood has data in the whole-array result but fill in the chunked one, and the converse)
+RealV(e) == IF e.outcome = "skip_destination_outside_the_valid_area_of_its_crs" THEN "skip"
+            ELSE IF e.outcome # "ok" THEN "reject:raised_" \o e.outcome
+            ELSE IF ~e.same_shape THEN "reject:dtype_or_shape_differs_between_chunked_and_whole"
+            ELSE IF e.holes > 0 THEN "reject:chunked_result_has_fill_where_the_whole_array_result_has_data"
+            ELSE IF e.extra > 0 THEN "reject:chunked_result_has_data_where_no_source_pixel_reaches"
+            ELSE "ok"
+Verdict(e) == IF "op" \in DOMAIN e.c /\ e.c.op = "real" THEN RealV(e)
+              ELSE IF e.outcome # "ok" THEN "reject:raised_" \o e.outcome
               ELSE LET v == ImagesV(e) IN IF v = "ok" THEN "ok" ELSE IF v = "drift" THEN "drift:whole_array_result_differs_from_first_principles_nearest_neighbour" ELSE "reject:" \o v
 VARIABLE l
 Init == l = 1
